@@ -423,3 +423,26 @@ pub fn run_model_pub<F: Fam>(ctx: &Ctx, prop: &'static str, label: &str, streams
 fn unused(_: &[Ast]) -> Vec<Ast> {
     u_small(Family::V3)
 }
+
+pub fn e2_pub<F: Fam>(ctx: &Ctx, prop: &str, frames: &[Vec<u8>]) {
+    e2_keep_alive::<F>(ctx, prop, frames, 3);
+}
+
+/// replay helper: a recorded C08 stream with its boundaries
+pub fn c08_stream<F: Fam>(ctx: &Ctx, stream: &[u8], ends: &[usize]) {
+    let mut pk: Vec<(F::Packet, Vec<u8>)> = Vec::new();
+    let mut start = 0;
+    for e in ends {
+        let frame = stream[start..*e].to_vec();
+        match front::blocking::<F>(&frame) {
+            Out::Pkt(p) => pk.push((p, frame)),
+            other => {
+                ctx.violation(format!("C08:{}:replay-decode", F::NAME), format!("frame {} of the recorded stream decodes to {}", hex_short(&frame), other.short()), json!({"kind":"sequence","family":F::NAME,"stream":hex(stream),"ends":ends}));
+                return;
+            }
+        }
+        start = *e;
+    }
+    let seq: Vec<usize> = (0..pk.len()).collect();
+    c08_seq::<F>(ctx, &pk, &seq, true);
+}
